@@ -103,7 +103,7 @@ def one(ctx, name, prose, doc_class, typ, typ_class, value, default_class, how, 
             v = None if value == NoneStr else value
             rendered = quote(v) if (needs_quoting(typ) and isinstance(v, str)) else v
             sep = "" if prose.endswith((".", ",")) else "."
-            doc2 = "{}{} {}{}".format(prose, sep, how, rendered)
+            doc2 = "{}{} {}{}".format(prose, sep, how, rendered) if prose else "{}{}".format(how, rendered)
     except Exception as e:
         ctx.report_exception(e, base, replay, stage="emit")
         return
@@ -186,7 +186,10 @@ def run(ctx):
         for i in range(n):
             name = "p{}".format(i % 50)
             prose, doc_class = g.prose(name)
-            if i % 7 == 3:
+            if i % 13 == 5:
+                # no prose at all in front of the announcement (":param lr: Defaults to 0.001")
+                prose, doc_class = "", "empty"
+            elif i % 7 == 3:
                 # very short descriptions (the whole line is shorter than the longest announcement phrase)
                 prose, doc_class = ctx.rng.choice(["x", "On.", "Rate", "lr", "n."]), "very_short"
             typ, tc, value, dc = g.typ_and_default(name)
@@ -201,7 +204,7 @@ def run(ctx):
                 dc = {1.0: "float_one", 0.0: "float_zero", 2.5: "float_pos", -1.0: "float_neg"}[value] if isinstance(value, float) else ("bool_true" if value else "bool_false")
             if value is IRGen.MISSING:
                 continue
-            how = "set_default_doc" if i % 3 == 0 else PHRASES[(i // 3) % 4]
+            how = "set_default_doc" if (i % 3 == 0 and prose) else PHRASES[(i // 3) % 4]
             remove = bool((i // 2) % 2)
             ctx.case((tc, dc, doc_class, how, remove, repr(value)), nontrivial=True,
                      sample={"prose": prose, "typ": typ, "value": repr(value), "render": how, "removal": remove},
